@@ -27,6 +27,9 @@ type recCC struct {
 }
 
 func (c *recCC) EnterIdleMode() {
+	// the real ClientConn.EnterIdleMode takes time (locks, tears down the
+	// resolver and balancer): it is not atomic with the manager's bookkeeping
+	vsched.Yield()
 	c.mu.Lock()
 	defer c.mu.Unlock()
 	vsched.Observe("enter(active=%d)", c.active)
@@ -41,6 +44,10 @@ func (c *recCC) EnterIdleMode() {
 }
 
 func (c *recCC) ExitIdleMode() {
+	// the real ClientConn.ExitIdleMode takes time (re-creates the resolver and
+	// balancer): give other threads a chance to run before the channel has
+	// actually left idle mode
+	vsched.Yield()
 	c.mu.Lock()
 	defer c.mu.Unlock()
 	vsched.Observe("exit")
